@@ -61,6 +61,33 @@ def lake_build(targets):
     return rc == 0, out
 
 
+def import_closure(modules):
+    """the MqttVerif.* modules the given modules import, transitively (for the kernel re-check)"""
+    seen, todo = [], list(modules)
+    while todo:
+        m = todo.pop()
+        if m in seen or not m.startswith('MqttVerif'):
+            continue
+        seen.append(m)
+        path = os.path.join(LEAN, *m.split('.')) + '.lean'
+        try:
+            for line in open(path):
+                mm = re.match(r'\s*import\s+(\S+)', line)
+                if mm:
+                    todo.append(mm.group(1))
+        except IOError:
+            pass
+    return sorted(seen)
+
+
+def leanchecker(modules):
+    """thorough tier: replay the compiled declarations of the property's modules and everything of this project they
+    import through Lean's independent re-checker"""
+    mods = import_closure(modules)
+    rc, out = sh(['lake', 'env', 'leanchecker'] + mods, cwd=LEAN, timeout=3000)
+    return rc == 0, out, mods
+
+
 def scan_forbidden():
     """grep the Lean sources for sorry/admit/axiom/native_decide/... outside comments"""
     hits = []
@@ -166,6 +193,13 @@ def run_check(prop, tier, seed, campaign, replay=None):
             notes.append('lake build driver failed:\n' + out2[-1500:])
         ax, ax_out = (audit(prop, ob) if prop_ok else ({t: None for t in ob['theorems']}, ''))
         forb = scan_forbidden()
+        rechecked = None
+        if tier == 'thorough' and prop_ok:
+            lc_ok, lc_out, lc_mods = leanchecker(ob['modules'])
+            rechecked = dict(ok=lc_ok, modules=lc_mods)
+            if not lc_ok:
+                prop_ok = False
+                notes.append('leanchecker rejected the compiled modules:\n' + lc_out[-1500:])
     n_obl = len(ob['theorems']) + len(ob.get('config_obligations', []))
     bad_ax = {t: a for t, a in ax.items() if a is None or not set(a) <= ALLOWED_AXIOMS}
     discharged = sum(1 for t, a in ax.items() if a is not None and set(a) <= ALLOWED_AXIOMS)
@@ -229,6 +263,8 @@ def run_check(prop, tier, seed, campaign, replay=None):
         disagreements_checked=len(res.divergences), theorems=ob['theorems'],
         source_digest=source_digest(), config_regenerated=cfg_info, notes=notes,
     )
+    if rechecked is not None:
+        cov['kernel_recheck'] = rechecked
     if res.exhaustive is not None:
         cov['exhaustive'] = res.exhaustive
     cov.update(res.extra)
